@@ -15,7 +15,7 @@ invariant `Wired` between the pool state and a *ghost log* of what the pool proc
   tracker received (marks, finalization batches with the events of the finality tracker, prunes to
   `first_unpruned_slot`);
 * `Consistent L` — the premise on the history (C01): `Finality.Safe (finOps L)`, no skip certificate for a
-  finalized slot, the only finalized block of slot 0 is genesis;  `Consistent L → ParentReady.SafeRun (prTrace L)`;
+  directly finalized slot, the only finalized block of slot 0 is genesis;  `Consistent L → ParentReady.SafeRun (prTrace L)`;
 * `Wired p L` — `p.fin` is the finality tracker after `finOps L`, `p.pr` the parent-ready tracker after `prTrace L`.
 -/
 namespace AgModel.Pool
@@ -162,10 +162,19 @@ theorem prTrace_snoc (L : List LogItem) (it : LogItem) :
 
 /-- **The consistency premise on the history** (what consensus safety, C01, gives for the certificates and blocks a
     correct node can ever process): the safety premise of the finality tracker (C08: parents in earlier slots, one
-    parent per block, one finalized block per slot, ...) and no skip certificate for a finalized slot. -/
+    parent per block, one finalized block per slot, ...) and no skip certificate for the slot of a *directly*
+    finalized block. -/
 structure Consistent (L : List LogItem) : Prop where
   safe : Finality.Safe (finOps L)
-  skip_not_final : ∀ c, LogItem.cert c ∈ L → c.kind = .skip → ∀ h, ¬ Finality.Final (finOps L) (c.slot, h)
+  /-- no skip certificate for the slot of a **directly** finalized block (fast-finalization certificate, or
+      finalization + notarization certificate).  Until the C10 cluster proof this clause excluded every `Final` block —
+      also the *implicitly* finalized ancestors — which consensus safety does **not** give: the slot of an ancestor that is
+      certified only by a notar-fallback (or a notarization) certificate can also carry a skip certificate (the valid run
+      `Findings.evs1` of `Props/C01Cluster.lean`: `Props/C10Cluster.lean`, `old_skip_premise_fails_on_valid_run`).  The
+      weaker clause suffices for everything the premise was used for: the watermark of the finality tracker — the only
+      slots that become prune roots of the parent-ready tracker — is always genesis or the slot of a *directly* finalized
+      block (`first_direct`). -/
+  skip_not_direct : ∀ c, LogItem.cert c ∈ L → c.kind = .skip → ∀ h, ¬ Finality.Direct (finOps L) (c.slot, h)
   /-- the only finalized block of slot 0 is genesis (the finalized blocks form a chain from genesis).  Until the D27
       repair this was a consequence of `Finality.Safe` (its clause "the notarized block of a slot is the `Final` one",
       genesis counting as notarized); that clause was too strong and is gone, so the fact is stated here, at the
@@ -181,7 +190,7 @@ theorem finOps_sub {A B : List LogItem} (h : ∀ x, x ∈ A → x ∈ B) : Final
 
 /-- the premise is inherited by every sub-log (in particular by every prefix) -/
 theorem Consistent.sub {A B : List LogItem} (hc : Consistent B) (h : ∀ x, x ∈ A → x ∈ B) : Consistent A :=
-  ⟨hc.safe.sub (finOps_sub h), fun c hm hk hh hf => hc.skip_not_final c (h _ hm) hk hh (hf.mono (finOps_sub h)),
+  ⟨hc.safe.sub (finOps_sub h), fun c hm hk hh hf => hc.skip_not_direct c (h _ hm) hk hh (hf.mono (finOps_sub h)),
    fun hh hf => hc.genesis hh (hf.mono (finOps_sub h))⟩
 
 theorem Consistent.prefix {A B : List LogItem} (hc : Consistent (A ++ B)) : Consistent A :=
@@ -721,6 +730,29 @@ theorem first_final {ops : List Finality.Op} (sf : Finality.Safe ops) {t : Final
       · left; exact ⟨c, p, hc, hl, by omega, by omega⟩
     · exact hf
 
+/-- … more precisely: the slot of a **directly** finalized block.  A block that is finalized only through a descendant
+    `c` (a link `c → b` from a `Final` block) cannot sit at the watermark: the slot after it would be decided, too —
+    finalized (`c` itself) or implicitly skipped (strictly between `b` and `c`). -/
+theorem first_direct {ops : List Finality.Op} (sf : Finality.Safe ops) {t : Finality.Tracker}
+    {evs : List Finality.Event} (ri : Finality.RunInv ops t evs) :
+    t.first = 0 ∨ ∃ h, Finality.Direct ops (t.first, h) := by
+  obtain ⟨_, w2⟩ := ri.watermark sf
+  rcases first_final sf ri with e | ⟨h, hf⟩
+  · exact Or.inl e
+  · right
+    refine ⟨h, ?_⟩
+    generalize hb : (t.first, h) = b at hf
+    cases hf with
+    | direct d => exact d
+    | @step c _ hc hl =>
+      exfalso
+      have hlt := sf.link_lt c b hl
+      have hb1 : b.1 = t.first := by rw [← hb]
+      apply w2
+      by_cases e : t.first + 1 = c.1
+      · right; exact ⟨c.2, by rw [e]; exact hc⟩
+      · left; exact ⟨c, b, hc, hl, by omega, by omega⟩
+
 open ParentReady in
 theorem pruneArgs_itemStep (t : Finality.Tracker) (it : LogItem) :
     pruneArgs (itemStep t it).2 = [] ∨ pruneArgs (itemStep t it).2 = [(itemStep t it).1.first] := by
@@ -765,22 +797,44 @@ theorem roots_final (L : List LogItem) (hs : Finality.Safe (finOps L)) :
         exact first_final hs (Finality.runInv_of_run hs hrun)
 
 open ParentReady in
+/-- every prune root of the trace is genesis or the slot of a block that is *directly* finalized in the history -/
+theorem roots_direct (L : List LogItem) (hs : Finality.Safe (finOps L)) :
+    ∀ r ∈ pruneArgs (prTrace L), r = 0 ∨ ∃ h, Finality.Direct (finOps L) (r, h) := by
+  induction L using ParentReady.snoc_induction with
+  | nil => intro r hr; cases hr
+  | snoc L it ih =>
+    have hsub : Finality.Sub (finOps L) (finOps (L ++ [it])) := finOps_sub (fun _ hx => List.mem_append_left _ hx)
+    intro r hr
+    rw [prTrace_snoc, pruneArgs_append, List.mem_append] at hr
+    rcases hr with hr | hr
+    · rcases ih (hs.sub hsub) r hr with e | ⟨h, hf⟩
+      · exact Or.inl e
+      · exact Or.inr ⟨h, hf.mono hsub⟩
+    · rcases pruneArgs_itemStep (finState L) it with e | e
+      · rw [e] at hr; cases hr
+      · rw [e, ← finState_snoc] at hr
+        have : r = (finState (L ++ [it])).first := by simpa using hr
+        obtain ⟨fevs, hrun, _⟩ := trace_inv (L ++ [it]) hs
+        rw [this]
+        exact first_direct hs (Finality.runInv_of_run hs hrun)
+
+open ParentReady in
 /-- **The consistency premise implies the premise `SafeRun` of the parent-ready theorems** for the operations the
     pool performs on its parent-ready tracker: the prune roots are the watermarks of the finality tracker
-    (monotone), each is genesis or the slot of a finalized block, and such a slot is never accepted as a skip mark
-    (not from a skip certificate: premise; not as an implicit skip: a finalized slot is not between a finalized
-    block and its parent). -/
+    (monotone), each is genesis or the slot of a *directly* finalized block (`roots_direct`), and such a slot is never
+    accepted as a skip mark (not from a skip certificate: premise; not as an implicit skip: a finalized slot is not
+    between a finalized block and its parent). -/
 theorem safeRun_prTrace {L : List LogItem} (hc : Consistent L) : SafeRun (prTrace L) := by
   obtain ⟨fevs, hrun, ti⟩ := trace_inv L hc.safe
   refine ⟨hist_mono_of_sorted _ ti.sorted, fun r hr => ?_⟩
-  rcases roots_final L hc.safe r ((hist_roots _).1 r hr) with e | ⟨h, hf⟩
+  rcases roots_direct L hc.safe r ((hist_roots _).1 r hr) with e | ⟨h, hd⟩
   · left; rw [e]; decide
   · right
     intro hm
     rcases (ti.sk r).mp hm with ⟨pre, c, hp, hk, hsl, _⟩ | a
     · have hmem : LogItem.cert c ∈ L := List.IsPrefix.mem (List.mem_append_right _ (List.mem_singleton.mpr rfl)) hp
-      exact hc.skip_not_final c hmem hk h (by rw [hsl]; exact hf)
-    · exact hc.safe.final_not_skip hf ((Finality.runInv_of_run hc.safe hrun).soundS r a)
+      exact hc.skip_not_direct c hmem hk h (by rw [hsl]; exact hd)
+    · exact hc.safe.final_not_skip (.direct hd) ((Finality.runInv_of_run hc.safe hrun).soundS r a)
 
 /-! ### the two trackers inside the pool: projection of the pool operations -/
 
@@ -1451,14 +1505,14 @@ theorem skCertAcc_above {L : List LogItem} (hs : Finality.Safe (finOps L)) {s : 
 def ConsistentC (L : List LogItem) : Prop :=
   Finality.Safe (finOps L) ∧
   (∀ it ∈ L, match it with
-    | .cert c => c.kind = .skip → ∀ b ∈ Finality.finals (finOps L), b.1 ≠ c.slot
+    | .cert c => c.kind = .skip → ∀ b ∈ Finality.cands (finOps L), Finality.directB (finOps L) b = true → b.1 ≠ c.slot
     | .block _ _ => True) ∧
   ∀ b ∈ Finality.finals (finOps L), b.1 = 0 → b.2 = 0
 
 instance (L : List LogItem) : Decidable (ConsistentC L) := by
   unfold ConsistentC
   have : ∀ it : LogItem, Decidable (match it with
-    | .cert c => c.kind = .skip → ∀ b ∈ Finality.finals (finOps L), b.1 ≠ c.slot
+    | .cert c => c.kind = .skip → ∀ b ∈ Finality.cands (finOps L), Finality.directB (finOps L) b = true → b.1 ≠ c.slot
     | .block _ _ => True) := by
     intro it; cases it <;> infer_instance
   infer_instance
@@ -1466,16 +1520,16 @@ instance (L : List LogItem) : Decidable (ConsistentC L) := by
 theorem consistentC_iff {L : List LogItem} : ConsistentC L ↔ Consistent L := by
   constructor
   · rintro ⟨sf, h, hg⟩
-    refine ⟨sf, fun c hm hk hh hf => ?_, fun hh hf => ?_⟩
-    · exact h (.cert c) hm hk (c.slot, hh) ((Finality.mem_finals sf.link_lt).mpr hf) rfl
+    refine ⟨sf, fun c hm hk hh hd => ?_, fun hh hf => ?_⟩
+    · exact h (.cert c) hm hk (c.slot, hh) (Finality.final_mem_cands (.direct hd)) (Finality.directB_iff.mpr hd) rfl
     · exact hg (0, hh) ((Finality.mem_finals sf.link_lt).mpr hf) rfl
   · rintro ⟨sf, h, hg⟩
     refine ⟨sf, fun it hm => ?_, fun b hb e => ?_⟩
     · cases it with
       | block b par => trivial
       | cert c =>
-        intro hk b hb e
-        exact h c hm hk b.2 (by rw [← e]; exact (Finality.mem_finals sf.link_lt).mp hb)
+        intro hk b _ hd e
+        exact h c hm hk b.2 (by rw [← e]; exact Finality.directB_iff.mp hd)
     · have hf := (Finality.mem_finals sf.link_lt).mp hb
       have hb' : b = (0, b.2) := Prod.ext e rfl
       rw [hb'] at hf
